@@ -367,3 +367,79 @@ func H_C02_del() {
 	}
 	vreach("del")
 }
+
+// H_C02_invalid: navigating from a value that was computed rather than reached from the
+// input raises an invalid-path error, never a silent update elsewhere: `.a | K | ACCESS`
+// under path/assignment/deletion, for a constructed container or a scalar K.
+func H_C02_invalid() {
+	ks := []string{`null`, `1`, `$i`, `"s"`, `{b: 1}`, `[1]`, `. + 0`, `[.[]?]`, `tostring`, `not`, `.`, `(.b? // .)`, `first(., 1)`, `if . then . else . end`, `select(true)`, `(., .)`, `{b: .b?}`}
+	accs := []string{`.b`, `.[0]`, `.[0:1]`, `.[]`, `.b.c`}
+	forms := []string{`[path(.a | %K | %A)]`, `(.a | %K | %A) = 5`, `(.a | %K | %A) |= 6`, `del(.a | %K | %A)`, `[paths(.. == (.a | %K | %A)?)] | length`, `[path(.c | %K | %A)]`}
+	k, a, f := ks[nondetChoice(len(ks))], accs[nondetChoice(len(accs))], forms[nondetChoice(vparam("forms", 4))]
+	src := ""
+	for i := 0; i < len(f); i++ {
+		if f[i] == '%' && i+1 < len(f) {
+			if f[i+1] == 'K' {
+				src += k
+			} else {
+				src += a
+			}
+			i++
+		} else {
+			src += string(f[i])
+		}
+	}
+	vlabel("prog", src)
+	var av any
+	switch nondetChoice(5) {
+	case 0:
+		av = nil
+	case 1:
+		av = hSmallInt()
+	case 2:
+		av = map[string]any{"b": map[string]any{"c": hSmallInt()}}
+	case 3:
+		av = []any{hSmallInt(), 2}
+	default:
+		av = nondetBool()
+	}
+	input := map[string]any{"a": av, "c": nil}
+	x := hSmallInt()
+	got := c02Run(src, input, x, 0, 0)
+	// what the computed value K is, on .a (run separately)
+	kv := c02Run(`.a | `+k, hDeepCopy(input), x, 0, 0)
+	if len(kv) != 1 {
+		vreach("k-generates")
+		return // K generates or fails: outside this harness
+	}
+	if _, isErr := kv[0].(error); isErr {
+		return
+	}
+	// K passes its input through untouched (identity-like forms) exactly when the result IS
+	// the value at the location: for containers identity of the Go object, for scalars equality
+	passthrough := false
+	switch k {
+	case `.`, `(.b? // .)`, `first(., 1)`, `if . then . else . end`, `select(true)`:
+		passthrough = true
+	case `(., .)`:
+		return
+	}
+	sameScalar := false
+	switch kv[0].(type) {
+	case []any, map[string]any:
+	default:
+		sameScalar = hIdentical(kv[0], av) || Compare(kv[0], av) == 0 && TypeOf(kv[0]) == TypeOf(av)
+	}
+	vassert(len(got) >= 1, "one output or an error")
+	if len(got) < 1 {
+		return
+	}
+	e, isErr := got[len(got)-1].(error)
+	if passthrough || sameScalar {
+		vreach("valid")
+		return // navigation is legitimate; its result is checked by the other C02 harnesses
+	}
+	vassert(isErr, "navigating from a computed value is an error, never a silent update")
+	_ = e // an ill-typed access fails with its own type error before the path check
+	vreach("invalid")
+}
